@@ -200,6 +200,13 @@ def run(chk):
         for combo in combos:
             rows.append(({"stmts": [{"deps": [k] if k else [], "nop": False, "guard": gpool[g], "loops": []}
                                     for k, g in enumerate(combo)], "src": "phasegen"}, "case"))
+    # hand-written guards with nested negations (the builder never produces them): every parity up to three, next to
+    # plain and singly negated guards on the same flag
+    NN = lambda x, k: x if k == 0 else ["not", NN(x, k - 1)]      # noqa: E731
+    for combo in itertools.product(range(4), repeat=3):
+        if max(combo) >= 2:
+            rows.append(({"stmts": [{"deps": [k] if k else [], "nop": False, "guard": NN(C, g), "loops": []}
+                                    for k, g in enumerate(combo)], "src": "phasegen"}, "case"))
     n_gen = len(rows)
     chk.stage("phasegen")
     seeds = [1] if chk.quick else [1, 2]
